@@ -264,7 +264,9 @@ theorem c03_rounds_isolated (ops : Consume.Ops Pkg) (cb : Pkg → Cb) (R : List 
       | fail =>
         left
         simp only [ha, Bool.false_eq_true, if_false]
-        have := (c03_drain_exact ops (A ++ [f]) R ⟨A, f, rfl, hf, hfe, hA'⟩).1
-        exact ⟨eeds, rfl, this⟩
+        have hspec := Dblib.Props.C11.drainCollect_spec ops A f R hf hfe (fun x hx => Or.inr (hA' x hx))
+        have happ : A ++ [f] ++ R = A ++ f :: R := by simp
+        rw [happ, hspec]
+        exact ⟨_, rfl, rfl⟩
 
 end Dblib.Props.C03
